@@ -70,3 +70,15 @@ Theorem C13_fol_merged_rows_partial : forall s a j props, FRange s -> (forall g,
   (forall g v, In (g, v) rows -> 0 <= moved (fget s j g) v).
 Proof. exact f_write_many_amount. Qed.
 Print Assumptions C13_fol_merged_rows_partial.
+
+(* every public inference operation of the first-order engine (node-level upward/downward of predicates, Not and
+   connectives over any variable arrangement, model passes, infer with any source / max_steps): the amount is >= 0 and a
+   reported ZERO means that no formula reads differently at any grounding afterwards -- "nothing reported" is never a
+   silent change.  (The converse needs every written row to exist; it is covered by the row-level theorems above and
+   by the monitor on the implementation.) *)
+From LNN.proofs Require Import AmountFolProofs.
+Theorem C13_fol_zero_means_unchanged : forall k roots s o,
+  0 <= snd (fexec_op k roots s o) /\
+  (snd (fexec_op k roots s o) == 0 -> forall i g, bnd_eq (fget s i g) (fget (fst (fexec_op k roots s o)) i g)).
+Proof. intros k roots s o. apply fexec_op_zero_sound. Qed.
+Print Assumptions C13_fol_zero_means_unchanged.
